@@ -1287,7 +1287,8 @@ impl Options {
                 Some(v) => v.get(),
                 None => 9,
             };
-            let exp = max!(min_exp.abs(), max_exp) as usize;
+            // NOTE: `i32::MIN.abs()` overflows.
+            let exp = max!(min_exp.unsigned_abs(), max_exp.unsigned_abs()) as usize;
             if cfg!(feature = "power-of-two") && exp < 13 {
                 // 11 for the exponent digits in binary, 1 for the sign, 1 for the symbol
                 count += 13;
